@@ -155,7 +155,42 @@ def kf9_output_only_multilevel(spec, problems):
     return "KF-9" if ok else None
 
 
+def kf10_double_flatten_rebinds_input(spec, problems):
+    """KF-10: two static flatten groups on ONE input tensor.  If the second
+    group's partitioning swizzle is emitted after the first group's
+    flattenRanks (an order the dependence graph allows), the swizzle statement
+    re-binds the input's own variable (<A>_<ranks> = <A>_<ranks>_flat.swizzleRanks(..))
+    to a half-flattened tensor: the name lies and a later Einsum that reads the
+    input again fails."""
+    hit = False
+    for ps in (spec.partitioning or {}).values():
+        tuples = [k for k in (ps or {}) if k.startswith("(")]
+        if len(tuples) >= 2:
+            hit = True
+    if not hit:
+        return None
+    # on the unchanged tree this has only been observed under C10's random
+    # tie-breaks, never under the real sort: the same symptom under the real sort
+    # is a fresh violation
+    if not any(p.get("tiebreak") is not None for p in problems):
+        return None
+    ok = False
+    for p in problems:
+        k = p.get("kind")
+        if k in ("name-lies", "input-name-rebound-differently", "input-name-lost"):
+            ok = True
+        elif k == "exec-error" and p.get("etype") == "ModelError" and \
+                "swizzleRanks" in str(p.get("error")):
+            ok = True
+        elif k in ("output-unbound", "value-mismatch", "differs-from-unmapped"):
+            continue
+        else:
+            return None
+    return "KF-10" if ok else None
+
+
 def classify_plain(spec, problems):
     """The known findings that can show in any plain-mode execution."""
     return kf1_take_in_sum(spec, problems) or classify_name_error(spec, problems) or \
-        kf9_output_only_multilevel(spec, problems)
+        kf9_output_only_multilevel(spec, problems) or \
+        kf10_double_flatten_rebinds_input(spec, problems)
